@@ -141,6 +141,9 @@ func (j arrayJSON) ToNode() (ast.Node, error) {
 func (j recordJSON) ToNode() (ast.Node, error) {
 	var nodes ast.Pairs
 	for _, k := range slices.Sorted(maps.Keys(j)) {
+		if j[k] == nil {
+			return ast.Node{}, fmt.Errorf("error in record: entry %q is null", k)
+		}
 		n, err := j[k].ToNode()
 		if err != nil {
 			return ast.Node{}, fmt.Errorf("error in record: %w", err)
